@@ -59,7 +59,7 @@ def method_features(F, name, helpers):
         if d and d[0] == "call" and d[1] == default_call:
             saw_default = True
             # must be under an emptiness test
-            if not any(c[2] is True and "is_empty" in repr(c[0]) for c in cond):
+            if not any(hirflow.emptiness(c)[0] == "empty" for c in cond):
                 default_guard = False
             continue
         if d == ("null",):
@@ -68,7 +68,7 @@ def method_features(F, name, helpers):
         if "get_results" in txt:
             results.append(("list", cond))
         elif "get_result" in txt:
-            idx0 = "('lit', 0)" in txt or "index" in txt
+            idx0 = "('lit', 0)" in txt or "index" in txt or "::first'" in txt
             results.append(("single" if idx0 else "single?", cond))
         elif "evaluate_sum" in txt:
             results.append(("aggregate:sum", cond))
@@ -164,7 +164,7 @@ def run(F, rep, tier):
         for shape, cond in results:
             if shape == "null":
                 continue
-            if not any(c[2] is False and "is_empty" in repr(c[0]) for c in cond):
+            if not any(hirflow.emptiness(c)[0] == "nonempty" for c in cond):
                 probs.append("a result (%s) is produced without the emptiness test dominating it" % shape)
                 break
         if probs:
@@ -191,7 +191,7 @@ def run(F, rep, tier):
         default = None
         for m, _ in find_hir(h["body"], lambda x: x.get("k") == "Match" and x.get("src") == "Normal"):
             for arm in m["arms"]:
-                lits = [c[1] for c in hirflow.Flow.pat_ctors(arm["p"]) if isinstance(c, tuple)]
+                lits = [c[1] for c in hirflow.Flow.pat_ctors(arm["p"]) if isinstance(c, tuple) and c[0] == "lit"]
                 vs = variants_in(arm["b"])
                 for s in lits:
                     tab[s] = vs
@@ -250,6 +250,90 @@ def run(F, rep, tier):
         for s, got in tab.items():
             if s not in orc["text_markers"]:
                 rep.violation(r2, "marker:%s" % s, "unspecified marker %r accepted (-> %s)" % (s, got), "model/src/model/mod.rs")
+
+    # ---------------- R03.4: ANY - "null when the matching rules' outputs differ": the outputs compared are the complete results
+    r4 = rep.rule("R03.4", "ANY returns null when matching rules differ: the comparison that leads to null is over the complete output of the rules (all components)")
+    any_m = (dispatch.get("Any") or [None])[0]
+    if any_m not in F.hir:
+        rep.missing_anchor(r4, "evaluation method of hit policy ANY")
+    else:
+        fl = hirflow.Flow(F.hir[any_m])
+
+        def unvia(d):
+            while isinstance(d, tuple) and d and (d[0] == "via" or (d[0] == "un" and d[1] in ("*", "&"))):
+                d = d[2]
+            return d
+
+        def whole(d):
+            d = unvia(d)
+            if isinstance(d, tuple) and d and d[0] == "call" and isinstance(d[1], str) and d[1] == EDT + "get_result":
+                return True
+            if isinstance(d, tuple) and d and d[0] == "field" and d[1] == "output_entry_values":
+                return True
+            return False
+        verdicts = []
+        for d, cond, line in fl.returns:
+            if d != ("null",):
+                continue
+            if not any(c[0] and c[0][0] == "loop-enter" for c in cond if isinstance(c[0], tuple)):
+                continue
+            cmps = [c for c in cond if isinstance(c[0], tuple) and c[0] and c[0][0] == "bin" and c[0][1] in ("==", "!=") and c[2] == (c[0][1] == "!=")]
+            if not cmps:
+                verdicts.append((False, line, "the null result inside the loop over the matching rules is not guarded by an inequality of two outputs"))
+                continue
+            c = cmps[-1][0]
+            if whole(c[2]) and whole(c[3]):
+                verdicts.append((True, line, "get_result(rule) != get_result(first)"))
+            else:
+                verdicts.append((False, line, "the outputs are compared through %s and %s, not as complete results (get_result / all output entries): rules that differ in another component are treated as equal"
+                                 % (str(unvia(c[2]))[:90], str(unvia(c[3]))[:90])))
+        if not verdicts:
+            rep.violation(r4, "any:agreement", "%s has no path returning null from the loop over the matching rules" % any_m.split("::")[-1], "%s:%s" % (FILE, F.hir[any_m]["line"]))
+        for okk, line, msg in verdicts:
+            if okk:
+                rep.ok(r4, "any:agreement", msg)
+            else:
+                rep.violation(r4, "any:agreement", msg, "%s:%s" % (FILE, line))
+
+    # ---------------- R03.5: priority order is lexicographic over the output components
+    r5 = rep.rule("R03.5", "priority ordering (PRIORITY, OUTPUT ORDER) is lexicographic over the output components: the comparator leaves the component loop only on a strict difference and ends with Equal")
+    pri = [n for n, v in helpers.items() if v == "prioritized"]
+    if not pri:
+        rep.missing_anchor(r5, "prioritized match-collection helper")
+    for n in pri:
+        h = F.hir[n]
+        fl = hirflow.Flow(h)
+        inloop = [(d, cond, line) for d, cond, line in fl.returns if any(isinstance(c[0], tuple) and c[0] and c[0][0] == "loop-enter" for c in cond)]
+        # the value of the comparator when the loop runs to its end: tail expression of the closure (or of a comparator function)
+        tails = []
+        for cl, _ in find_hir(h["body"], lambda x: x.get("k") == "Closure"):
+            body = strip(cl["body"])
+            t = strip(body["b"]["e"]) if body.get("k") == "Block" and body["b"].get("e") is not None else body
+            if t.get("k") == "Path" and "Ordering::" in (t.get("path") or ""):
+                tails.append((("ctor", t["path"]), (), t.get("l")))
+        key = "priority-comparator:%s" % n.split("::")[-1]
+        probs = []
+        if not inloop:
+            probs.append("no component loop with early returns found in the comparator (shape not recognised)")
+        for d, cond, line in inloop:
+            if d and d[0] in ("ctor", "def") and isinstance(d[1], str) and d[1].endswith(("Ordering::Less", "Ordering::Greater")):
+                continue
+            # a computed ordering may leave the loop only when it is known not to be Equal
+            excl = False
+            for c in cond:
+                txt = repr(c[0]) + repr(c[1])
+                if "Ordering::Equal" in txt and ((c[2] is False and "Ordering::Equal" in repr(c[1])) or (isinstance(c[0], tuple) and c[0][0] == "bin" and c[2] == (c[0][1] == "!="))):
+                    excl = True
+                if isinstance(c[0], tuple) and c[0] and c[0][0] == "call" and isinstance(c[0][1], str) and ((c[0][1].endswith("::is_ne") and c[2] is True) or (c[0][1].endswith("::is_eq") and c[2] is False)):
+                    excl = True
+            if not excl:
+                probs.append("line %s returns the ordering of one component (%s) without excluding Equal: a tie on this component is not resolved by the following components" % (line, str(d)[:70]))
+        if not any(d and d[0] in ("ctor", "def") and isinstance(d[1], str) and d[1].endswith("Ordering::Equal") for d, cond, line in tails):
+            probs.append("the comparator does not end with Ordering::Equal after the component loop")
+        if probs:
+            rep.violation(r5, key, "; ".join(probs), "%s:%s" % (FILE, h["line"]))
+        else:
+            rep.ok(r5, key, "%d early returns, all on a strict difference; Equal after the loop" % len(inloop))
 
     # ---------------- R03.3 (MIR): the `matches` flag
     name = DT + "evaluate_parsed_decision_table"
